@@ -14,7 +14,7 @@ ASSUMPTIONS = [
     "that libsodium's crypto_box really detects every ciphertext modification (Poly1305) is outside solver reach; it is the stated contract of the stub",
     "inner serializer is the real json on concrete application values; tampering = XOR of one payload octet at a free position with a free non-zero mask",
 ]
-BOUNDS = {"quick": "4 directions x 5 keyring layouts (default string key, per-prefix key, key pair, originator-only + responder-only pair, no key on the receiving side) x faults {none, tampered octet (free position and mask), wrong key, envelope URI swapped to another URI under the same key}; progressive results", "thorough": "same with 4 payload shapes (args+kwargs, args only, kwargs only, no payload)"}
+BOUNDS = {"quick": "4 directions x 5 keyring layouts (default string key, per-prefix key, key pair, originator-only + responder-only pair, no key on the receiving side) x faults {none, tampered octet (free position and mask), wrong key, envelope URI swapped to another URI under the same key}; progressive results; caller-side exception classes registered for the error URIs; pattern-based (prefix) registration with INVOCATION.details.procedure", "thorough": "same with 4 payload shapes (args+kwargs, args only, kwargs only, no payload)"}
 EXPECT_COVERS = ["ok:event", "ok:call", "ok:error", "ok:progress", "fault:tamper", "fault:wrongkey", "fault:uriswap", "fault:nokey"]
 BUDGET = {"quick": dict(wall_s=200, max_paths=20000, diff_samples=4), "thorough": dict(wall_s=1200)}
 
@@ -98,7 +98,7 @@ def _tamper(sx, payload):
     return mkbytes(items)
 
 
-def scenario(sx, direction, layout, fault, shape=0):
+def scenario(sx, direction, layout, fault, shape=0, variant="plain"):
     from autobahn.wamp import message, types
     from autobahn.wamp.exception import ApplicationError
     _install_nacl_model(sx)
@@ -114,7 +114,16 @@ def scenario(sx, direction, layout, fault, shape=0):
     ENC = (ApplicationError.ENC_NO_PAYLOAD_CODEC, ApplicationError.ENC_TRUSTED_URI_MISMATCH, ApplicationError.ENC_DECRYPT_ERROR)
     URI, URI2 = "com.myapp.thing", "com.myapp.other"
     ARGS, KWARGS = [([1, "two", [3]], {"k": {"n": 1}}), ([5], {}), ([], {"only": "kw"}), ([], {})][shape]
-    info = dict(direction=direction, layout=layout, fault=fault, shape=shape)
+    info = dict(direction=direction, layout=layout, fault=fault, shape=shape, variant=variant)
+
+    class MappedError(Exception):
+        def __init__(self, *a, **k):
+            Exception.__init__(self, *a)
+            self.kwargs = k
+    if variant == "mapped-error":
+        # the caller has its own exception classes registered for the error URIs
+        orig.define(MappedError, "com.myapp.error.bad")
+        orig.define(type("OtherMapped", (MappedError,), {}), "com.myapp.error.other")
     expect_ok = fault == "none" and kr_r is not None
 
     def clear_free(m):
@@ -155,7 +164,11 @@ def scenario(sx, direction, layout, fault, shape=0):
                 raise ApplicationError("com.myapp.error.bad", "why", code=5)
             return types.CallResult("ret", z=2)
 
-        resp.register(ep, URI, options=types.RegisterOptions(details_arg="details"))
+        if variant == "prefix-reg":
+            # pattern-based registration: the URI that was called travels in INVOCATION.details.procedure
+            resp.register(ep, "com.myapp", options=types.RegisterOptions(match="prefix", details_arg="details"))
+        else:
+            resp.register(ep, URI, options=types.RegisterOptions(details_arg="details"))
         resp.onMessage(message.Registered(t2.sent[-1].request, 200))
         resp.register(lambda *a, **k: got.append(("OTHER", a, k)), URI2)
         resp.onMessage(message.Registered(t2.sent[-1].request, 201))
@@ -172,7 +185,7 @@ def scenario(sx, direction, layout, fault, shape=0):
         pl = maybe_fault(call.payload) if fault_req == "tamper" else call.payload
         try:
             resp.onMessage(message.Invocation(900, reg_id, payload=pl, enc_algo=call.enc_algo, enc_key=call.enc_key, enc_serializer=call.enc_serializer,
-                                              receive_progress=(direction == "progress")))
+                                              receive_progress=(direction == "progress"), procedure=URI if (variant == "prefix-reg" and reg_id == 200) else None))
         except Exception as e:  # noqa
             sx.fail("exception-escapes-onMessage(INVOCATION)", info=dict(info, exc=repr(e)))
             return ["exc"]
@@ -222,7 +235,10 @@ def scenario(sx, direction, layout, fault, shape=0):
                     sx.cover("ok:call")
                 elif reply_ok and direction == "error":
                     r0 = res[0]
-                    ok = r0[0] == "err" and isinstance(r0[1], ApplicationError) and r0[1].error == "com.myapp.error.bad" and tuple(r0[1].args) == ("why",) and r0[1].kwargs == {"code": 5}
+                    if variant == "mapped-error":
+                        ok = r0[0] == "err" and type(r0[1]) is MappedError and tuple(r0[1].args) == ("why",) and r0[1].kwargs == {"code": 5}
+                    else:
+                        ok = r0[0] == "err" and isinstance(r0[1], ApplicationError) and r0[1].error == "com.myapp.error.bad" and tuple(r0[1].args) == ("why",) and r0[1].kwargs == {"code": 5}
                     sx.check(ok, "caller-receives-exactly-the-callees-error", info=dict(info, res=repr(res)))
                     sx.cover("ok:error")
                 else:
@@ -248,6 +264,10 @@ def units(tier):
                 if direction in ("result", "error", "progress") and layout == "receiver-no-key":
                     continue
                 U.append(("%s/%s/%s" % (direction, layout, fault), "scenario", dict(direction=direction, layout=layout, fault=fault)))
+                if direction == "error" and layout in ("default-string", "pair"):
+                    U.append(("%s/%s/%s/mapped" % (direction, layout, fault), "scenario", dict(direction=direction, layout=layout, fault=fault, variant="mapped-error")))
+                if direction in ("call", "result", "progress") and layout in ("default-string", "prefix-string") and fault in ("none", "tamper"):
+                    U.append(("%s/%s/%s/prefix-reg" % (direction, layout, fault), "scenario", dict(direction=direction, layout=layout, fault=fault, variant="prefix-reg")))
                 if tier != "quick":
                     for shape in (1, 2, 3):
                         U.append(("%s/%s/%s/shape%d" % (direction, layout, fault, shape), "scenario", dict(direction=direction, layout=layout, fault=fault, shape=shape)))
